@@ -61,7 +61,7 @@ Section SensorSys.
       injection H as <-.
       destruct (apply_ncmds [e_time e + nq_interval sc] en1 en2 AP) as [HC HP]. cbn [queue en1] in HP.
       assert (CNT : sn_count p1 = S (sn_count (n_p w))).
-      { unfold periodic_sense in PS. injection PS as <- _. unfold sn_trim_time. destruct (over_capacity _ _); reflexivity. }
+      { unfold periodic_sense in PS. injection PS as <- _. unfold sn_collect. cbn [sn_count]. f_equal. destruct (trim_time_fields (sn_add_time (e_time e) (n_p w))) as [_ [_ [_ X]]]. exact X. }
       split; cbn [fst snd n_out n_p]; auto.
       + pose proof (apply_cmds_inv nfact ws [CSched (e_time e + nq_interval sc) P_SENSOR periodic_asset ASense] en1 IP) as X.
         cbn [map] in AP. rewrite AP in X. exact X.
